@@ -163,10 +163,10 @@ func TestVerifC21Relay(t *testing.T) {
 							srcFail = len(payload) - 1
 						}
 					}
-					cl := NewClient(&c21CutDialer{inner: mustNewDialer(1, false, false), limit: limit}, 5*time.Second)
+					cl := NewClient(&c21CutDialer{inner: mustNewDialer(1, false, false), limit: limit}, 60*time.Second)
 					var out bytes.Buffer
 					br := &command.BackupRequest{Format: command.BackupRequest_BACKUP_REQUEST_FORMAT_BINARY, Compress: compress}
-					err := cl.Backup(context.Background(), br, s.Addr(), NO_CREDS, 5*time.Second, &out)
+					err := cl.Backup(context.Background(), br, s.Addr(), NO_CREDS, 60*time.Second, &out)
 					want := payload
 					if compress {
 						want = gz
@@ -224,9 +224,9 @@ func TestVerifC21Relay(t *testing.T) {
 	cred.allow = false
 	payload = []byte("secret")
 	for _, compress := range []bool{false, true} {
-		cl := NewClient(mustNewDialer(1, false, false), 5*time.Second)
+		cl := NewClient(mustNewDialer(1, false, false), 60*time.Second)
 		var out bytes.Buffer
-		err := cl.Backup(context.Background(), &command.BackupRequest{Compress: compress}, s.Addr(), NO_CREDS, 5*time.Second, &out)
+		err := cl.Backup(context.Background(), &command.BackupRequest{Compress: compress}, s.Addr(), NO_CREDS, 60*time.Second, &out)
 		c := "0"
 		if compress {
 			c = "1"
